@@ -10,13 +10,13 @@ pub static DEF: CheckDef = CheckDef {
     id: "C05",
     run,
     replay,
-    rule: "every data-moving/computing encoding is enumerated with all (A, operand, F) values for 8-bit forms, all 2^16 values for INC/DEC rr, POP/PUSH words and pointer registers, all 2^16 x 2^8 for ADD SP,e8 / LD HL,SP+e8, boundary lattice + random pairs (quick) or all 2^32 pairs (thorough) for ADD HL,rr; each tuple is executed by interpreter::run_next_op and by the independent reference CPU and compared on all registers, flags and memory. A tuple is non-trivial when the instruction changes at least one register, flag or memory byte other than PC; tuples are distinct by construction (each visited once) so non-trivial ones are counted directly.",
+    rule: "every data-moving/computing encoding is enumerated with all (A, operand, F) values for 8-bit forms, all 2^16 values for INC/DEC rr, POP/PUSH words and pointer registers, all 2^16 x 2^8 for ADD SP,e8 / LD HL,SP+e8, boundary lattice + random pairs (quick) or all 2^32 pairs (thorough) for ADD HL,rr; every instruction with operand bytes is also placed at 12 PCs (the last bytes of ROM bank 0, of the switchable bank and of the lower work RAM bank, so that the operand bytes come from the next region; the middle of the switchable bank; high RAM) under 9 ROM bank register values (none, 2, 5, 7, 0x1f, and 8 / 0x10 / 0x18 / 0 which wrap to banks 0 and 1 on the eight-bank cartridge), the other banks holding complemented bytes at the same offsets; each tuple is executed by interpreter::run_next_op and by the independent reference CPU and compared on all registers, flags and memory. A tuple is non-trivial when the instruction changes at least one register, flag or memory byte other than PC; tuples are distinct by construction (each visited once) so non-trivial ones are counted directly.",
     assumptions: &[
         "reference CPU models::sm83 (bit-field decoder, unit-tested against the published tables) is the oracle",
         "F low nibble is 0 and register fields are <= 0xFFFF on entry (guaranteed by every caller)",
         "pointer forms run on an MBC1+32KiB-RAM cartridge so that every address is backed",
     ],
-    required_classes: &["alu-r", "alu-imm", "cb", "incdec16", "addhl", "spofs", "pop", "push", "ptr", "half-carry", "carry", "zero"],
+    required_classes: &["alu-r", "alu-imm", "cb", "incdec16", "addhl", "spofs", "pop", "push", "ptr", "half-carry", "carry", "zero", "operand-across-region-end", "operand-in-switched-bank", "operand-in-bank-wrapped-to-0"],
     exhaustive: false,
 };
 
@@ -74,9 +74,32 @@ pub struct TwinInfo {
 
 pub fn twin_check(p: &mut Pair, code: &[u8], regs: &Regs, cells: &[(u16, u8)], scope: Scope) -> Result<TwinInfo, Fail> {
     let pc = regs.pc as u16;
-    place_code(&mut p.real, pc, code);
-    place_code(&mut p.twin, pc, code);
+    // cells at 0x2000-0x3FFF are writes to the ROM bank register, made before the code is
+    // put in place: the instruction bytes that lie in 0x4000-0x7FFF then go into the bank
+    // those writes map there, and every other bank gets different bytes at the same offset
+    let mut bank_reg: Option<u8> = None;
     for &(a, v) in cells {
+        if (0x2000..0x4000).contains(&a) {
+            p.real.write(a, v);
+            p.twin.write(a, v);
+            bank_reg = Some(v);
+        }
+    }
+    match bank_reg {
+        None => {
+            place_code(&mut p.real, pc, code);
+            place_code(&mut p.twin, pc, code);
+        }
+        Some(v) => {
+            let mapped = mapped_bank_std(v);
+            place_code_banked(&mut p.real, pc, code, mapped);
+            place_code_banked(&mut p.twin, pc, code, mapped);
+        }
+    }
+    for &(a, v) in cells {
+        if (0x2000..0x4000).contains(&a) {
+            continue;
+        }
         p.real.write(a, v);
         p.twin.write(a, v);
     }
@@ -160,6 +183,36 @@ pub fn twin_check(p: &mut Pair, code: &[u8], regs: &Regs, cells: &[(u16, u8)], s
         undo(&mut p.twin, &p.snap, &touched, p.ram_bank);
     }
     result
+}
+
+/// The bank the standard cartridge (MBC1, 8 banks, mode 0, upper bits 0) shows at
+/// 0x4000-0x7FFF after `v` was written to 0x2000-0x3FFF: five bits, 0 reads as 1, reduced
+/// to the eight banks present (the register protocol C12 states; restated here so that the
+/// placement does not depend on the emulator's own bank arithmetic).
+pub fn mapped_bank_std(v: u8) -> usize {
+    let low = (v & 0x1f) as usize;
+    (if low == 0 { 1 } else { low }) % 8
+}
+
+/// put instruction bytes where the CPU will fetch them, with `mapped` the bank visible at
+/// 0x4000-0x7FFF; every other bank gets the complement at the same offset, so that a fetch
+/// from the wrong bank cannot go unnoticed
+pub fn place_code_banked(m: &mut dyn Emu, pc: u16, code: &[u8], mapped: usize) {
+    for (i, b) in code.iter().enumerate() {
+        let a = pc.wrapping_add(i as u16);
+        if a < 0x4000 {
+            m.rom()[a as usize] = *b;
+        } else if a < 0x8000 {
+            let off = a as usize & 0x3fff;
+            let rom = m.rom();
+            let banks = rom.len() / 0x4000;
+            for bank in 0..banks {
+                rom[bank * 0x4000 + off] = if bank == mapped { *b } else { !*b };
+            }
+        } else {
+            m.write(a, *b);
+        }
+    }
 }
 
 /// twin_check with crash breadcrumb and violation recording
@@ -291,6 +344,8 @@ enum Item {
     HighMem(u8),
     Abs(u8),
     StoreImm,
+    /// operand bytes fetched across the end of a region and from switched banks (part 0..8)
+    OperandFetch(u8),
 }
 
 fn items(tier: Tier) -> Vec<Item> {
@@ -343,6 +398,9 @@ fn items(tier: Tier) -> Vec<Item> {
         v.push(Item::Abs(op));
     }
     v.push(Item::StoreImm);
+    for part in 0..8u8 {
+        v.push(Item::OperandFetch(part));
+    }
     v
 }
 
@@ -769,6 +827,73 @@ fn run(rec: &mut Rec) {
                     sample_regs = Some((code.to_vec(), r, None));
                 }
                 rec.class("abs", n);
+            }
+            Item::OperandFetch(part) => {
+                // every data instruction with operand bytes (immediates, high-page offsets,
+                // absolute addresses, the CB page), placed so that its operand bytes lie at
+                // the end of a fetch region, in the next region, or in a ROM bank other than
+                // the power-on one (bank register 2, 5, 7; 8, 0x10, 0x18 wrap to bank 0 / 1 on
+                // the eight-bank cartridge; 0x1f reduces to 7)
+                let p = pair.get_or_insert_with(Pair::new);
+                let pcs: [u16; 12] = [0x3ffd, 0x3ffe, 0x3fff, 0x4000, 0x6abc, 0x7ffd, 0x7ffe, 0x7fff, 0xcffe, 0xcfff, 0xdffd, 0xff80];
+                let banks: [Option<u8>; 9] = [None, Some(2), Some(5), Some(7), Some(8), Some(0x10), Some(0x18), Some(0x1f), Some(0)];
+                let mut k = part as u32 * 977;
+                for op in 0..=255u8 {
+                    if op as usize % 8 != part as usize || sm83::is_undefined(op) || sm83::is_terminator(op) || op == 0x10 || op == 0x76 {
+                        continue;
+                    }
+                    let len = sm83::length(op);
+                    if len < 2 {
+                        continue;
+                    }
+                    for &pc in pcs.iter() {
+                        for &bank in banks.iter() {
+                            if bank.is_some() && pc >= 0x8000 {
+                                continue;
+                            }
+                            for variant in 0..3u32 {
+                                k += 1;
+                                let mut r = base_regs();
+                                r.pc = pc as u32;
+                                r.af = ((k * 29 + 7) & 0xff) << 8 | [0x00u32, 0xf0, 0x50][variant as usize];
+                                r.hl = 0xc280 + (k & 0x3f);
+                                r.sp = 0xdf00 + (k & 0x7f);
+                                let mut code = vec![op];
+                                if op == 0xcb {
+                                    // register forms and (HL) forms of every CB group
+                                    code.push((k * 13 + variant * 64) as u8);
+                                } else if len == 2 {
+                                    code.push([(k * 37 + 5) as u8, 0x00, 0xff][variant as usize]);
+                                } else {
+                                    // absolute addresses in plain RAM only (a store must not hit the code or a register)
+                                    let nn: u16 = if matches!(op, 0xea | 0xfa | 0x08) { 0xc300 + ((k * 7) & 0xff) as u16 } else { (k * 0x1357 + variant * 0x8001) as u16 };
+                                    code.push(nn as u8);
+                                    code.push((nn >> 8) as u8);
+                                }
+                                if matches!(op, 0xe0 | 0xf0) {
+                                    // high-page forms: high RAM only
+                                    code[1] = 0x80 | (code[1] & 0x7f).min(0x7e);
+                                }
+                                let cells: Vec<(u16, u8)> = bank.map(|b| vec![(0x2100u16, b)]).unwrap_or_default();
+                                twin_case(rec, p, &code, &r, &cells, Scope::Data);
+                                n += 1;
+                                nt += 1;
+                                let end = pc as u32 + len as u32;
+                                if (pc < 0x4000 && end > 0x4000) || (pc < 0x8000 && end > 0x8000) || (pc < 0xd000 && end > 0xd000) {
+                                    rec.class("operand-across-region-end", 1);
+                                    if bank.is_some() && pc < 0x4000 {
+                                        rec.class("operand-in-switched-bank", 1);
+                                    }
+                                }
+                                if bank.map(|b| mapped_bank_std(b) == 0).unwrap_or(false) && pc >= 0x3ffe && pc < 0x8000 {
+                                    rec.class("operand-in-bank-wrapped-to-0", 1);
+                                }
+                                sample_regs = Some((code, r, None));
+                            }
+                        }
+                    }
+                }
+                rec.class("operand-fetch", n);
             }
             Item::StoreImm => {
                 let p = pair.get_or_insert_with(Pair::new);
